@@ -285,8 +285,10 @@ def finding_key(obs, clause):
     # buffer_geometry raised KeyError (GEOS returned NaN coordinates for the 1e9-scaled line, the clipped result is an empty
     # GeometryCollection): only for line strings in a call with freq_buffer = 0; any other failure of ValidGeometry stays a violation
     if clause == "ValidGeometry" and obs["in"]["g"]["type"] in ("LineString", "MultiLineString"):
-        runs = [(obs["in"]["b1"], obs["out"].get("r1", {})), (obs["in"]["b2"], obs["out"].get("r2", {}))]
-        bad = [(b, r) for b, r in runs if min(b) >= 0 and r.get("raised") != ""]
+        neg_tiny = lambda e: any(n and n != "-0.0" for n in e)        # a named negative magnitude: the run is a negative-buffer call
+        runs = [(obs["in"]["b1"], obs["in"].get("e1", []), obs["out"].get("r1", {})),
+                (obs["in"]["b2"], obs["in"].get("e2", []), obs["out"].get("r2", {}))]
+        bad = [(b, r) for b, e, r in runs if min(b) >= 0 and not neg_tiny(e) and r.get("raised") != ""]
         if bad and all(r.get("raised") == "KeyError" and b[1] == 0 for b, r in bad):
             return "ValidGeometry/KeyError-line-string-zero-freq-buffer"
     return clause
